@@ -510,7 +510,7 @@ def parts(tier):
             name="labels",
             evaluate=evaluate,
             strategy=strategy,
-            budget={"quick": 800, "thorough": 40000},
+            budget={"quick": 800, "thorough": 320000},
             shards={"quick": 1, "thorough": 16},
             min_nontrivial={"quick": 150, "thorough": 8000},
         )
